@@ -1158,6 +1158,10 @@ class PDFPageInterpreter:
             if settings.STRICT:
                 raise PDFInterpreterError("No font specified!")
             return
+        if not isinstance(seq, list):
+            # TJ takes an array; anything else shows nothing
+            log.warning("Cannot show text because %r is not an array", seq)
+            return
         assert self.ncs is not None
         self.device.render_string(
             self.textstate,
